@@ -406,6 +406,10 @@ func (m *monState) checkStart(si *StepInfo, j *JobSnap, pre, post *Snap) {
 			run.violate("C01", "r1", "step %d (%s): job %s started, %d jobs of pipeline %s now execute, limit %d", si.N, si.Name, j.Name, n, P, def.Concurrency)
 		}
 	}
+	if pj := pre.Jobs[j.Name]; pj != nil && pj.Canceled {
+		run.violate("C07", "r3", "step %d (%s): job %s had been reported canceled while it waited (replaced or canceled) and is started now", si.N, si.Name, j.Name)
+		run.violate("C04", "r1", "step %d (%s): job %s had been reported canceled while it waited and is started now", si.N, si.Name, j.Name)
+	}
 	a := m.acc[j.Name]
 	if a == nil {
 		return
@@ -967,6 +971,16 @@ func (m *monState) onEnd() {
 		// C03 r1 (the pipeline must have remained defined since the job was accepted)
 		if def != nil && j.Waiting() && m.undefinedAt[a.Pipeline] < a.Step {
 			run.violate("C03", "r1", "after the drain phase job %s of pipeline %s (accepted at step %d) has neither started nor been canceled", name, a.Pipeline, a.Step)
+			if m.defChanged[a.Pipeline] > a.Step {
+				run.violate("C16", "r4", "job %s of pipeline %s was accepted at step %d, the definitions were replaced at step %d (the pipeline stayed defined), and after the drain phase the job has neither started nor been canceled", name, a.Pipeline, a.Step, m.defChanged[a.Pipeline])
+			}
+		}
+		// a job that never started never ran anything (replaced, canceled while waiting, refused at start)
+		if j.Start == nil {
+			if n := len(m.events(name, "run-enter")); n > 0 {
+				run.violate("C07", "r3", "job %s is reported as never started (%s) but %d of its tasks ran", name, brief(j), n)
+				run.violate("C04", "r1", "job %s is reported as never started (%s) but %d of its tasks ran", name, brief(j), n)
+			}
 		}
 		if j.Running() {
 			run.violate("C03", "r1b", "after the drain phase job %s is still reported running", name)
